@@ -9,8 +9,6 @@ Reads, on every run, from the tree under test
                                 the broadcasting constructor and the postfix operators;
 * dune/common/simd/interface.hh the scalar cond (`mask ? ifTrue : ifFalse`);
 * dune/common/simd/standard.hh  the mask reductions of a scalar bool;
-* dune/common/simd/defaults.hh  horizontal max/min, mask, maskOr/maskAnd, implCast, broadcast, and the derived
-                                reductions allTrue/anyFalse/allFalse in terms of anyTrue;
 * dune/common/simd/DESIGN.md    the operator table of the specification ("where `@` is one of ...").
 
 and emits
@@ -408,27 +406,6 @@ def translate_standard(src):
     return res
 
 
-def translate_defaults(src):
-    s = nospace(strip_comments(src))
-    facts = []
-    def need(pat, what):
-        if pat not in s:
-            raise TranslateError("defaults.hh: %s changed" % what)
-    need("Scalar<V>m=Simd::lane(0,v);for(std::size_tl=1;l<Simd::lanes(v);++l)if(m<Simd::lane(l,v))m=Simd::lane(l,v);returnm;", "horizontal max")
-    need("Scalar<V>m=Simd::lane(0,v);for(std::size_tl=1;l<Simd::lanes(v);++l)if(Simd::lane(l,v)<m)m=Simd::lane(l,v);returnm;", "horizontal min")
-    need("usingCopy=AutonomousValue<V>;returnv!=Copy(Scalar<Copy>(0));", "mask")
-    need("returnSimd::mask(v1)||Simd::mask(v2);", "maskOr")
-    need("returnSimd::mask(v1)&&Simd::mask(v2);", "maskAnd")
-    need("Vresult(Simd::Scalar<V>(0));for(autol:range(Simd::lanes(u)))Simd::lane(l,result)=Simd::lane(l,u);returnresult;", "implCast")
-    need("returnV(Simd::Scalar<V>(s));", "broadcast")
-    need("usingstd::max;returnmax(v1,v2);", "binary max")
-    need("usingstd::min;returnmin(v1,v2);", "binary min")
-    need("boolallTrue(ADLTag<0>,constMask&mask){return!Dune::Simd::anyTrue(!mask);}", "default allTrue")
-    need("boolanyFalse(ADLTag<0>,constMask&mask){returnDune::Simd::anyTrue(!mask);}", "default anyFalse")
-    need("boolallFalse(ADLTag<0>,constMask&mask){return!Dune::Simd::anyTrue(mask);}", "default allFalse")
-    return facts
-
-
 def translate_spec(md):
     """the operator table of simd/DESIGN.md"""
     text = re.sub(r"\s+", " ", md)
@@ -486,13 +463,12 @@ def translate(repo):
     loops, reds, inv, lane_inner, lane_outer = translate_loop_hh(rd("dune/common/simd/loop.hh"))
     scalar_cond = translate_interface(rd("dune/common/simd/interface.hh"))
     scalar_reds = translate_standard(rd("dune/common/simd/standard.hh"))
-    translate_defaults(rd("dune/common/simd/defaults.hh"))
     spec = translate_spec(rd("dune/common/simd/DESIGN.md"))
 
     def syms(macro):
         return [a[0] for a in inv["DUNE_SIMD_LOOP_" + macro]]
 
-    g = ["-- GENERATED by tools/translators/tr_c09.py from dune/common/simd/{loop,interface,standard,defaults}.hh and",
+    g = ["-- GENERATED by tools/translators/tr_c09.py from dune/common/simd/{loop,interface,standard}.hh and",
          "-- dune/common/simd/DESIGN.md -- do not edit",
          "namespace DV.C09.Gen",
          "",
